@@ -280,4 +280,25 @@ def throttleLateKind : Kind where
         spec := if l.res == [.atom "ok"] then none else some "throttle:one-permission-per-period:late-timer" }
     | _, _ => { st := st, bad := some s!"throttlelate: bad line {l.op}" }
 
+/-! ## debounce when the goroutine of an expired timer starts late (kind `debouncelate`)
+
+`latecancel n` / `latecall n`: trials on the real clock with one P in which a `cancel()` (or a newer debounced call)
+completes in the window between the expiry of the debounce timer and the start of the goroutine the runtime created for
+its function (see the harness).  By `Theorems/C20Late.lean: dlate_no_run_after_cancel, dlate_not_early` the debounced
+function, when its goroutine finally starts, first checks under the debouncer's lock that its timer is still the
+current one — so it never runs after `cancel()` has returned and never sooner than `wait` after the most recent call.
+The only admitted answer is `ok`. -/
+def debounceLateKind : Kind where
+  σ := Unit
+  init := fun _ => some ()
+  step := fun st l =>
+    match l.op, l.args with
+    | "latecancel", [.int _] =>
+      { st := st, model := some [.atom "ok"], tags := ["debounce:late-start:cancel"], nontrivial := true
+        spec := if l.res == [.atom "ok"] then none else some "debounce:not-at-all-after-cancel:late-start" }
+    | "latecall", [.int _] =>
+      { st := st, model := some [.atom "ok"], tags := ["debounce:late-start:newer-call"], nontrivial := true
+        spec := if l.res == [.atom "ok"] then none else some "debounce:never-sooner-than-wait-after-the-most-recent-call:late-start" }
+    | _, _ => { st := st, bad := some s!"debouncelate: bad line {l.op}" }
+
 end GoguVerif.Kinds.C20
